@@ -3,6 +3,7 @@
   `Model.BtArray` is the algorithm of the array classes; `Py.ListSpec` is Python's list.
 -/
 import NiVerif.Model.BtArray
+import NiVerif.Gen.BtArray
 
 namespace Props.C17
 open Py.Slice Model.BtArray
@@ -215,5 +216,226 @@ theorem zero_step_ValueError (a : Arr) (s e : Option Int) (vs : Arr) :
 -- non-vacuity: the two cases the pinned tree got wrong
 example : Model.BtArray.setSlice [0, 1, 2, 3, 4] (some 3) (some 1) none [9] = .ok [0, 1, 2, 9, 3, 4] := by rfl
 example : Model.BtArray.setSlice [0, 1, 2, 3, 4] none none (some (-1)) [9] = .error .ValueError := by rfl
+
+/-! ### T17: the methods regenerated from `_timedelta_array.py` / `_datetime_array.py` are the model's -/
+
+theorem gen_delitem_int_eq_model (a : Arr) (i : Int) : Gen.BtArray.delitem_int a i = Model.BtArray.delItem a i := by
+  unfold Gen.BtArray.delitem_int Model.Np1.deleteAt
+  cases Model.BtArray.delItem a i <;> rfl
+
+theorem gen_delitem_slice_eq_model (a : Arr) (s e st : Option Int) : Gen.BtArray.delitem_slice a s e st = Model.BtArray.delSlice a s e st := by
+  unfold Gen.BtArray.delitem_slice Model.Np1.delete
+  cases Model.BtArray.delSlice a s e st <;> rfl
+
+theorem gen_insert_eq_model (a : Arr) (i x : Int) : Gen.BtArray.insert a i x = .ok (Model.BtArray.insert a i x) := by
+  unfold Gen.BtArray.insert Model.Np1.insert Model.BtArray.insert
+  simp only [Except.bind]
+  have h : ¬ (min (max i (-(a.length : Int))) (a.length : Int) < -(a.length : Int) ∨ min (max i (-(a.length : Int))) (a.length : Int) > (a.length : Int)) := by omega
+  simp only [h, if_false]
+
+/-- which indices a step-1 range holds -/
+theorem contains_range1 (x y i : Int) : (rangeList x y 1).contains i = decide (x ≤ i ∧ i < y) := by
+  unfold rangeList rangeLen
+  simp only [show (1 : Int) > 0 from by decide, if_true]
+  apply Bool.eq_iff_iff.mpr
+  simp only [List.contains_iff_mem, List.mem_map, List.mem_range, decide_eq_true_eq]
+  constructor
+  · rintro ⟨k, hk, rfl⟩
+    split at hk <;> omega
+  · intro h
+    refine ⟨(i - x).toNat, ?_, by omega⟩
+    split <;> omega
+
+/-- keeping the positions outside [x, y) is take ++ drop -/
+theorem filter_outside (x y : Nat) (hxy : x ≤ y) : ∀ (l : List Int) (k : Nat),
+    (((l.zipIdx k).filter fun p => !(decide ((x : Int) ≤ (p.2 : Int) ∧ (p.2 : Int) < (y : Int)))).map (·.1))
+      = l.take (x - k) ++ l.drop (y - k) := by
+  intro l
+  induction l with
+  | nil => intro k; simp
+  | cons v l ih =>
+    intro k
+    simp only [List.zipIdx_cons, List.filter_cons]
+    by_cases h1 : k < x
+    · have : decide ((x : Int) ≤ (k : Int) ∧ (k : Int) < (y : Int)) = false := by simp; omega
+      simp only [this, Bool.not_false, if_true, List.map_cons, ih (k + 1)]
+      have e1 : x - k = (x - (k + 1)) + 1 := by omega
+      have e2 : y - k = (y - (k + 1)) + 1 := by omega
+      rw [e1, e2, List.take_succ_cons, List.drop_succ_cons, List.cons_append]
+    · by_cases h2 : k < y
+      · have : decide ((x : Int) ≤ (k : Int) ∧ (k : Int) < (y : Int)) = true := by simp; omega
+        simp only [this, Bool.not_true, Bool.false_eq_true, if_false, ih (k + 1)]
+        have e1 : x - k = 0 := by omega
+        have e1' : x - (k + 1) = 0 := by omega
+        have e2 : y - k = (y - (k + 1)) + 1 := by omega
+        rw [e1, e1', e2, List.drop_succ_cons]
+        simp
+      · have : decide ((x : Int) ≤ (k : Int) ∧ (k : Int) < (y : Int)) = false := by simp; omega
+        simp only [this, Bool.not_false, if_true, List.map_cons, ih (k + 1)]
+        have e1 : x - k = 0 := by omega
+        have e1' : x - (k + 1) = 0 := by omega
+        have e2 : y - k = 0 := by omega
+        have e2' : y - (k + 1) = 0 := by omega
+        rw [e1, e1', e2, e2']
+        simp
+
+/-- `slice(x, y).indices(len)` for 0 ≤ x ≤ len, 0 ≤ y ≤ len -/
+theorem indices_some_some (x y : Int) (len : Nat) (hx0 : 0 ≤ x) (hx : x ≤ len) (hy0 : 0 ≤ y) (hy : y ≤ len) :
+    indices (some x) (some y) none len = .ok (x, y, 1) := by
+  unfold indices clamp
+  simp only [Option.getD_none, show ¬ ((1 : Int) = 0) from by decide, if_false, show ¬ ((1:Int) < 0) from by decide]
+  have h1 : ¬ x < 0 := by omega
+  have h2 : ¬ y < 0 := by omega
+  simp only [h1, h2, if_false]
+  congr 1
+  refine Prod.ext ?_ (Prod.ext ?_ rfl)
+  · simp only; split <;> omega
+  · simp only; split <;> omega
+
+/-- `np.delete(a, slice(x, y))` for 0 ≤ x ≤ y ≤ len is `deleteRange` -/
+theorem delSlice_contiguous (a : Arr) (x y : Int) (hx0 : 0 ≤ x) (hxy : x ≤ y) (hy : y ≤ a.length) :
+    Model.BtArray.delSlice a (some x) (some y) none = .ok (deleteRange a x.toNat y.toNat) := by
+  unfold Model.BtArray.delSlice
+  rw [indices_some_some x y a.length hx0 (by omega) (by omega) hy]
+  simp only [Except.map, deleteRange]
+  congr 1
+  have hfun : (fun (p : Int × Nat) => !(rangeList x y 1).contains (p.2 : Int))
+      = fun (p : Int × Nat) => !(decide (((x.toNat : Nat) : Int) ≤ (p.2 : Int) ∧ (p.2 : Int) < ((y.toNat : Nat) : Int))) := by
+    funext p
+    rw [contains_range1]
+    have e1 : ((x.toNat : Nat) : Int) = x := by omega
+    have e2 : ((y.toNat : Nat) : Int) = y := by omega
+    rw [e1, e2]
+  rw [hfun]
+  have := filter_outside x.toNat y.toNat (by omega) a 0
+  simpa using this
+
+/-- `a[x:x+n] = vs` with `len vs = n` inside the array is `assignRange` -/
+theorem setSlice_contiguous (a : Arr) (x : Int) (vs : List Int) (hx0 : 0 ≤ x) (hfit : x + vs.length ≤ a.length) :
+    Model.Np1.setSlice a (some x) (some (x + vs.length)) none vs = .ok (assignRange a x.toNat vs) := by
+  unfold Model.Np1.setSlice
+  rw [indices_some_some x (x + vs.length) a.length hx0 (by omega) (by omega) hfit]
+  simp only [Except.bind]
+  have hn : rangeLen x (x + vs.length) 1 = vs.length := by
+    rw [rangeLen_step1 x (x + vs.length) (by omega)]; omega
+  simp only [hn, if_true]
+  unfold rangeList
+  rw [hn]
+  have hx : x = ((x.toNat : Nat) : Int) := by omega
+  have := scatter_consecutive vs a x.toNat (by omega)
+  rw [hx] at *
+  simp only [Int.toNat_natCast] at this ⊢
+  rw [this]
+  rfl
+
+theorem length_assignRange (a : Arr) (s : Nat) (vs : List Int) (h : s + vs.length ≤ a.length) : (assignRange a s vs).length = a.length := by
+  unfold assignRange
+  simp only [List.length_append, List.length_take, List.length_drop]
+  omega
+
+theorem rangeList_empty (s e : Int) (h : e ≤ s) : rangeList s e 1 = [] := by
+  unfold rangeList rangeLen
+  simp only [show (1 : Int) > 0 from by decide, if_true]
+  have : ¬ s < e := by omega
+  simp [this]
+
+/-- **the generated slice assignment is the model's `setSlice`** (hence, by `setSlice_refines`, Python's list slice assignment):
+    the length check of extended slices, `stop = start` for an empty step-1 selection, and the three branches - shrink (assign the
+    first positions, delete the rest), grow (assign the selection, `np.insert` the rest at `stop`), equal (strided assignment) -/
+theorem gen_setitem_slice_eq_model (a : Arr) (i0 i1 i2 : Option Int) (vs : List Int) :
+    Gen.BtArray.setitem_slice a i0 i1 i2 vs = Model.BtArray.setSlice a i0 i1 i2 vs := by
+  unfold Gen.BtArray.setitem_slice Model.BtArray.setSlice
+  cases hidx : indices i0 i1 i2 a.length with
+  | error err => rfl
+  | ok r =>
+    obtain ⟨s, e, st⟩ := r
+    simp only [Except.bind]
+    by_cases hlen : st ≠ 1 ∧ (vs.length : Int) ≠ ((rangeLen s e st : Nat) : Int)
+    · have hlen' : st ≠ 1 ∧ vs.length ≠ rangeLen s e st := ⟨hlen.1, by omega⟩
+      rw [if_pos hlen, if_pos hlen']
+    · have hlen' : ¬ (st ≠ 1 ∧ vs.length ≠ rangeLen s e st) := by
+        intro h; exact hlen ⟨h.1, by omega⟩
+      rw [if_neg hlen, if_neg hlen']
+      by_cases hsh : (vs.length : Int) < ((rangeLen s e st : Nat) : Int)
+      · -- shrink: step 1, a non-empty selection
+        have hst : st = 1 := by
+          by_cases h : st = 1
+          · exact h
+          · exact absurd ⟨h, by omega⟩ hlen
+        subst hst
+        obtain ⟨hs0, hsl, he0, hel⟩ := indices_step1 i0 i1 i2 a.length s e hidx
+        have hse : s < e := by
+          by_cases h : s < e
+          · exact h
+          · have : rangeLen s e 1 = 0 := by unfold rangeLen; simp; omega
+            omega
+        have hrl : rangeLen s e 1 = (e - s).toNat := rangeLen_step1 s e (by omega)
+        have hstop : (if (1 : Int) = 1 ∧ e < s then s else e) = e := by
+          have : ¬ ((1 : Int) = 1 ∧ e < s) := by omega
+          rw [if_neg this]
+        have hsh' : vs.length < rangeLen s e 1 := by omega
+        rw [hstop, if_pos hsh, if_pos hsh']
+        rw [setSlice_contiguous a s vs hs0 (by omega)]
+        simp only
+        rw [gen_delitem_slice_eq_model, delSlice_contiguous _ (s + vs.length) e (by omega) (by omega)
+          (by rw [length_assignRange a s.toNat vs (by omega)]; exact hel)]
+        simp only
+        congr 2
+        omega
+      · rw [if_neg hsh]
+        have hsh' : ¬ vs.length < rangeLen s e st := by omega
+        rw [if_neg hsh']
+        by_cases hgr : (vs.length : Int) > ((rangeLen s e st : Nat) : Int)
+        · -- grow: step 1
+          have hst : st = 1 := by
+            by_cases h : st = 1
+            · exact h
+            · exact absurd ⟨h, by omega⟩ hlen
+          subst hst
+          obtain ⟨hs0, hsl, he0, hel⟩ := indices_step1 i0 i1 i2 a.length s e hidx
+          have hgr' : vs.length > rangeLen s e 1 := by omega
+          rw [if_pos hgr, if_pos hgr']
+          -- the adjusted stop
+          generalize hstop : (if (1 : Int) = 1 ∧ e < s then s else e) = e'
+          have he' : s ≤ e' ∧ e' ≤ a.length ∧ 0 ≤ e' := by
+            subst hstop; split <;> omega
+          have hsel : rangeLen s e 1 = (e' - s).toNat := by
+            subst hstop
+            split
+            · rename_i h
+              have : rangeLen s e 1 = 0 := by unfold rangeLen; simp; omega
+              omega
+            · rw [rangeLen_step1 s e (by omega)]
+          have htake : (vs.take (rangeLen s e 1)).length = rangeLen s e 1 := by
+            rw [List.length_take]; omega
+          have hcast : ((rangeLen s e 1 : Nat) : Int).toNat = rangeLen s e 1 := by omega
+          rw [hcast]
+          have hstop2 : e' = s + ((vs.take (rangeLen s e 1)).length : Int) := by rw [htake, hsel]; omega
+          have hfit : s + ((vs.take (rangeLen s e 1)).length : Int) ≤ (a.length : Int) := by rw [← hstop2]; exact he'.2.1
+          have hA := setSlice_contiguous a s (vs.take (rangeLen s e 1)) hs0 hfit
+          rw [← hstop2] at hA
+          rw [hA]
+          simp only
+          unfold Model.Np1.insert
+          rw [length_assignRange a s.toNat _ (by rw [htake, hsel]; omega)]
+          have hok : ¬ (e' < -(a.length : Int) ∨ e' > (a.length : Int)) := by omega
+          have hpos : ¬ (e' < 0) := by omega
+          simp only [hok, hpos, if_false]
+        · -- equal lengths: the original slice, strided
+          have hgr' : ¬ vs.length > rangeLen s e st := by omega
+          rw [if_neg hgr, if_neg hgr']
+          unfold Model.Np1.setSlice
+          rw [hidx]
+          simp only [Except.bind]
+          have heq : vs.length = rangeLen s e st := by omega
+          rw [if_pos heq]
+          -- the model reads the adjusted stop; for an empty step-1 selection both ranges are empty
+          by_cases hadj : st = 1 ∧ e < s
+          · rw [if_pos hadj]
+            obtain ⟨h1, h2⟩ := hadj
+            subst h1
+            rw [rangeList_empty s e (by omega), rangeList_empty s s (by omega)]
+          · rw [if_neg hadj]
+
 
 end Props.C17
